@@ -131,9 +131,18 @@ func c04Check(w *core.W, m *model.Msg, kind string) {
 	if d := bridge.DiffNoRdlen(mu, mc); d != "" {
 		w.Violation("C04/compressed-decodes-differently/"+kind, "Unpack(compressed) differs from Unpack(uncompressed) at "+d, wit)
 	}
-	// input compressed by the model in the RDATA of every type must be accepted and mean the same
-	in := m.WireCompressed(true)
-	if exp2, ptrs2, e := model.Decompress(in); e == nil && len(in) <= 65535 {
+	// input compressed by the model in the RDATA of every type must be accepted and mean the same;
+	// also from a sender whose pointers target earlier pointers (1..5 hops)
+	for mode, in := range [][]byte{m.WireCompressed(true), m.WireCompressedMemo(true, 1+len(packU)%5)} {
+		exp2, ptrs2, e := model.Decompress(in)
+		if e != nil || len(in) > 65535 {
+			continue
+		}
+		kind := kind
+		if mode == 1 {
+			kind += "/pointer-to-pointer"
+			w.Count("input_pointer_to_pointer_messages", 1)
+		}
 		nr := 0
 		for _, p := range ptrs2 {
 			if p.Where == "rdata" && !p.Compressible {
